@@ -68,7 +68,7 @@ for vj in sorted(glob.glob("/tmp/val/C*-m*.json")) + sorted(glob.glob("/tmp/val/
 with open(os.path.join(OUT, "README.md"), "w") as fh:
     fh.write("# Seeded defects and which checks catch them\n\nEach directory: `patch.diff` (applies to /repo HEAD at the time of validation), `demo/` (fails with the patch, "
              "passes without), `NOTES.md` (the author's description), `meta.json` (what was run, what each check reported).\n\n"
-             "| seeded | property | check results (V = VIOLATION with a concrete failing input, V* = VIOLATION no-failing-input-found, - = not detected by that check) |\n|---|---|---|\n")
+             "| seeded | property | check results (V = VIOLATION whose replay is a concrete failing input of the real code or a concrete failing state of the model — register, table row, feature combination —, V* = VIOLATION no-failing-input-found, - = not detected by that check; the validation of an entry reflects the checks as they were when it was last run, see meta.json) |\n|---|---|---|\n")
     for sid, prop, checks in sorted(rows, key=lambda r: (r[0], r[1])):
         cells = []
         for k, v in sorted(checks.items()):
